@@ -123,6 +123,9 @@ impl ReceiverInner {
                 &&& final(self).outgoing.sent@ == old(self).outgoing.sent@.push((d.closed, None::<AmqpError>))      // [C13.link.recv-detach-answered-in-kind] a peer's detach seen by recv() is answered at once with exactly one detach, closing iff the peer's was closing -- whether or not the peer's detach carried an error
                 &&& final(self).link.st == (if d.closed { LinkState::Closed } else { LinkState::Detached })         // [C13.link.recv-detach-completes] ... and the link ends Closed / Detached with its handle released
             }),
+        // the session (or its connection) is gone: the link's incoming channel is closed
+        final(self).incoming.got@.len() == old(self).incoming.got@.len() ==> r == Err::<Option<DeliveryT>, RecvError>(RecvError::LinkStateError(match old(self).link.stop.v {
+                Some(reason) => LinkStateError::SessionStopped(reason), None => LinkStateError::IllegalState })),          // [C14.recv.closed-channel-reports-stop-reason] a recv() that finds the channel from the session closed fails at once (it does not wait) with SessionStopped(reason): the reason the session published before it dropped the channel -- the peer's End / Close with its error, the transport failure -- so the application learns whether link, session or connection stopped
 //@@ end
 }
 
